@@ -512,7 +512,7 @@ func vbStart(nrep int) (*vbWorld, error) {
 func runHistory(alpha []vbStep, nrep int, idx []int, quiesce bool) (applicable bool, trace []string, failure error) {
 	defer func() {
 		if r := recover(); r != nil {
-			failure = fmt.Errorf("C03 panic: %v", r)
+			applicable, failure = true, fmt.Errorf("C03 panic: %v", r)
 		}
 	}()
 	w, err := vbStart(nrep)
